@@ -166,23 +166,49 @@ approximate_partition_aux(const PPL::Congruence& c,
   // When  c is a proper congruence and gr also is discrete
   // in this direction, then there is a finite partition and that
   // is added to r.
-  const Coefficient& c_inhomogeneous_term = c.inhomogeneous_term();
-  Linear_Expression le(c.expression());
-  le -= c_inhomogeneous_term;
-  PPL_DIRTY_TEMP_COEFFICIENT(n);
-  rem_assign(n, c_inhomogeneous_term, c_modulus);
-  if (n < 0) {
-    n += c_modulus;
+  // On gr_copy the expression of c takes the values v + k*f, on gr
+  // it takes the values gv + k*gf (k integer), where the frequency gf
+  // is an integral multiple of the frequency f: the partition is made
+  // of the gf/f - 1 grids where the expression takes the values
+  // congruent to gv + j*f modulo gf, for 0 < j < gf/f.
+  // Note that, in general, the values v and the frequency f are
+  // rational numbers.
+  const Linear_Expression le(c.expression());
+  PPL_DIRTY_TEMP_COEFFICIENT(f_n);
+  PPL_DIRTY_TEMP_COEFFICIENT(f_d);
+  PPL_DIRTY_TEMP_COEFFICIENT(v_n);
+  PPL_DIRTY_TEMP_COEFFICIENT(v_d);
+  PPL_DIRTY_TEMP_COEFFICIENT(gf_n);
+  PPL_DIRTY_TEMP_COEFFICIENT(gf_d);
+  PPL_DIRTY_TEMP_COEFFICIENT(gv_n);
+  PPL_DIRTY_TEMP_COEFFICIENT(gv_d);
+  if (!gr_copy.frequency(le, f_n, f_d, v_n, v_d)
+      || !gr.frequency(le, gf_n, gf_d, gv_n, gv_d)) {
+    // This should not happen: both grids are non-empty and discrete
+    // in this direction.
+    r.add_disjunct(gr_copy);
+    return false;
   }
+  if (f_n == 0) {
+    // The expression is constant on gr_copy, so that gr equals gr_copy.
+    return true;
+  }
+  // Scale everything by the least common denominator.
+  PPL_DIRTY_TEMP_COEFFICIENT(den);
+  lcm_assign(den, f_d, gf_d);
+  lcm_assign(den, den, gv_d);
+  exact_div_assign(f_d, den, f_d);
+  f_n *= f_d;
+  exact_div_assign(gf_d, den, gf_d);
+  gf_n *= gf_d;
+  exact_div_assign(gv_d, den, gv_d);
+  gv_n *= gv_d;
+  const Linear_Expression scaled_le = den * le - gv_n;
   PPL_DIRTY_TEMP_COEFFICIENT(i);
-  for (i = c_modulus; i-- > 0; ) {
-    if (i != n) {
-      Grid gr_tmp(gr_copy);
-      gr_tmp.add_congruence((le+i %= 0) / c_modulus);
-      if (!gr_tmp.is_empty()) {
-        r.add_disjunct(gr_tmp);
-      }
-    }
+  for (i = f_n; i < gf_n; i += f_n) {
+    Grid gr_tmp(gr_copy);
+    gr_tmp.add_congruence((scaled_le - i %= 0) / gf_n);
+    r.add_disjunct(gr_tmp);
   }
   return true;
 }
